@@ -221,14 +221,16 @@ Definition vturn (a : val) (pen : Z) (pt : zp) : val :=
    p1/p2 the two perpendicular states, mk builds the point from the coordinate along the line. *)
 Section Sweep.
   Variables (get : cell -> val) (set : cell -> val -> cell) (p1 p2 : cell -> val) (mk : Z -> zp) (pen : Z)
-            (blocked : Z -> Z -> bool) (dst : zp).
+            (blocked : Z -> Z -> bool) (nt : zp -> bool).
   Fixpoint sweep (carry : val) (prev : Z) (first : bool) (line : list (Z * cell)) : list (Z * cell) :=
     match line with
     | [] => []
     | (x, c) :: t =>
         let incoming := if first then None else if blocked prev x then None else vadd carry (Z.abs (x - prev)) in
-        (* no turn at the destination itself: a state (dst, d) always means "arrived travelling d" *)
-        let turnin := if zp_eqb (mk x) dst then None else vturn (vmin (p1 c) (p2 c)) pen (mk x) in
+        (* no turn where nt holds.  The search uses nt = [noturn src dst]: no turn at the destination itself (a state
+           (dst, d) always means "arrived travelling d") and none at the source (a state (src, d) means "about to leave
+           travelling d": the first segment must leave in an allowed direction, a connector never turns on its own end) *)
+        let turnin := if nt (mk x) then None else vturn (vmin (p1 c) (p2 c)) pen (mk x) in
         let v := vmin (vmin (get c) incoming) turnin in
         (x, set c v) :: sweep v x false t
     end.
@@ -242,7 +244,7 @@ Definition setW c v := mkcell (cN c) (cE c) (cS c) v.
 (* grid = list of rows (y, list of (x, cell)) *)
 Definition grid := list (Z * list (Z * cell)).
 
-Definition sweep_rows (rs : list rect) (pen : Z) (dst : zp) (g : grid) : grid :=
+Definition sweep_rows (rs : list rect) (pen : Z) (dst : zp -> bool) (g : grid) : grid :=
   map (fun row => let '(y, l) := row in
     let blk := fun a b => hblocked rs (Z.min a b) (Z.max a b) y in
     let l1 := sweep cE setE cN cS (fun x => (x, y)) pen blk dst None 0 true l in
@@ -263,7 +265,7 @@ Definition transpose (g : grid) : grid :=
   | (_, l) :: _ => transpose_aux (map fst l) g
   end.
 
-Definition sweep_cols (rs : list rect) (pen : Z) (dst : zp) (g : grid) : grid :=
+Definition sweep_cols (rs : list rect) (pen : Z) (dst : zp -> bool) (g : grid) : grid :=
   (* g is in column form: (x, list of (y, cell)) *)
   map (fun col => let '(x, l) := col in
     let blk := fun a b => vblocked rs (Z.min a b) (Z.max a b) x in
@@ -271,7 +273,7 @@ Definition sweep_cols (rs : list rect) (pen : Z) (dst : zp) (g : grid) : grid :=
     let l2 := rev (sweep cN setN cE cW (fun y => (x, y)) pen blk dst None 0 true (rev l1)) in
     (x, l2)) g.
 
-Definition round (rs : list rect) (pen : Z) (dst : zp) (g : grid) : grid :=
+Definition round (rs : list rect) (pen : Z) (dst : zp -> bool) (g : grid) : grid :=
   transpose (sweep_cols rs pen dst (transpose (sweep_rows rs pen dst g))).
 
 Definition signature (g : grid) : list Z :=
@@ -283,7 +285,7 @@ Fixpoint zlist_eqb (a b : list Z) : bool :=
   | _, _ => false
   end.
 
-Fixpoint iterate (fuel : nat) (rs : list rect) (pen : Z) (dst : zp) (g : grid) : option grid :=
+Fixpoint iterate (fuel : nat) (rs : list rect) (pen : Z) (dst : zp -> bool) (g : grid) : option grid :=
   match fuel with
   | O => None
   | S n => let g' := round rs pen dst g in
@@ -308,10 +310,12 @@ Inductive oracle_result :=
 | OR_out_of_fuel
 | OR_bad_path (c : Z) (p : list zp).
 
+Definition noturn (src dst : zp) (p : zp) : bool := zp_eqb p dst || zp_eqb p src.
+
 Definition search (rs : list rect) (src dst : zp) (pen sd ad : Z) (fuel : nat) : option (option (Z * list zp)) :=
   let xs := hanan_xs rs src dst in
   let ys := hanan_ys rs src dst in
-  match iterate fuel rs pen dst (init_grid xs ys src sd) with
+  match iterate fuel rs pen (noturn src dst) (init_grid xs ys src sd) with
   | None => None
   | Some g =>
       match lookup g dst with
